@@ -5,13 +5,6 @@
 import SomeipModel.Model.Session
 namespace Someip.Spec
 
-structure RxMsg where
-  sender : Addr
-  mc : Bool
-  flag : Bool
-  sid : Nat
-deriving DecidableEq, Repr, Inhabited
-
 /-- the last message of `hist` from the same sender on the same channel -/
 def lastSame (hist : List RxMsg) (m : RxMsg) : Option RxMsg :=
   hist.reverse.find? (fun p => decide (p.sender = m.sender ∧ p.mc = m.mc))
